@@ -323,6 +323,11 @@ class Memory():
 
     def write(self, memory, addr, data, flush_queue=False, progress_cb=None):
         """Write the specified data to the given memory at the given address"""
+        if self.cf.link is None:
+            # Nothing can be sent, a queued request would stay pending forever
+            logger.warning('Can not write to memory id {}, no link is open'.format(memory.id))
+            return False
+
         wreq = _WriteRequest(memory, addr, data, self.cf, progress_cb)
         if memory.id not in self._write_requests:
             self._write_requests[memory.id] = []
@@ -344,6 +349,11 @@ class Memory():
         """
         Read the specified amount of bytes from the given memory at the given address
         """
+        if self.cf.link is None:
+            # Nothing can be sent, the request would stay pending forever and block later reads
+            logger.warning('Can not read from memory id {}, no link is open'.format(memory.id))
+            return False
+
         if memory.id in self._read_requests:
             logger.warning('There is already a read operation ongoing for memory id {}'.format(memory.id))
             return False
@@ -367,6 +377,7 @@ class Memory():
             except Exception as e:
                 logger.info('Error when removing memory after update: {}'.format(e))
         self.mems = []
+        self._ow_mems_left_to_update = []
 
         self.nbr_of_mems = 0
         self._getting_count = False
